@@ -10,7 +10,43 @@ package certgen
 //@   intmode math
 //@   nopanic @C10,C11
 //@   ensures ret1 == nil ==> 0 <= encodedBlock.BitLength && encodedBlock.BitLength <= 32      #C11.never-widen @C11
-//@   loop 1 (i int) invariant 0 <= i && i <= 4 && 8*(i-1) < encodedBlock.BitLength           #C11.decode-bound @C10,C11
+//@   ensures 0 <= encodedBlock.BitLength && encodedBlock.BitLength <= 32 ==> ret1 == nil      #C11.dec-accepts @C11
+//@   ensures ret1 == nil ==> len(ret0.IP) == 16 && (forallIdx j int :: 0 <= j && j < 4 ==> (8*j < encodedBlock.BitLength ==> ret0.IP[12+j] == encodedBlock.Bytes[j]) && (8*j >= encodedBlock.BitLength ==> ret0.IP[12+j] == 0))  #C11.dec-bytes @C11
+//@   ensures ret1 == nil ==> maskOnes(ret0.Mask) == encodedBlock.BitLength && maskBits(ret0.Mask) == 32   #C11.dec-mask @C11
+//@   loop 1 (i int, encodedIP [4]byte) invariant 0 <= i && i <= 4 && 8*(i-1) < encodedBlock.BitLength           #C11.decode-bound @C10,C11
+//@   loop 1 (i int, encodedIP [4]byte) invariant (forallIdx j int :: 0 <= j && j < 4 ==> (j < i ==> encodedIP[j] == encodedBlock.Bytes[j]) && (j >= i ==> encodedIP[j] == 0))  #C11.decode-copied @C11
+
+// the encoder: prefix length from the mask, the first ceil(len/8) octets of the IPv4 address
+//@ func encodeIpAddressChoice
+//@   intmode math
+//@   requires len(netBlock.IP) == 4 || len(netBlock.IP) == 16
+//@   nopanic @C11
+//@   ensures ret1 == nil ==> maskBits(netBlock.Mask) == 32 && ret0.BitLength == maskOnes(netBlock.Mask)       #C11.enc-length @C11
+//@   ensures ret1 == nil ==> 0 <= ret0.BitLength && ret0.BitLength <= 32 && len(ret0.Bytes) == (ret0.BitLength + 7) / 8   #C11.enc-size @C11
+//@   ensures ret1 == nil ==> (forallIdx j int :: 0 <= j && j < len(ret0.Bytes) ==> ret0.Bytes[j] == netBlock.IP[len(netBlock.IP) - 4 + j])   #C11.enc-bytes @C11
+//@   loop 1 (i int, outlen int, increment int, output []byte) invariant 0 <= i && i <= outlen && len(output) == outlen && (forallIdx j int :: 0 <= j && j < i ==> output[j] == netBlock.IP[increment + j])  #C11.encode-copied @C11
+
+// Round trip (a lemma over the two contracts above; its body is a ghost function in the generated overlay):
+// a netblock as net.ParseCIDR returns it -- IPv4, 4- or 16-byte form, octets beyond the prefix zero -- is read back
+// with the same four address octets and the same prefix length.
+//@ pure func v4Octet(nb net.IPNet, j int) byte = nb.IP[len(nb.IP) - 4 + j]
+//@ pure func canonicalV4Block(nb net.IPNet) bool = (len(nb.IP) == 4 || len(nb.IP) == 16) && (forallIdx j int :: 0 <= j && j < 4 && 8*j >= maskOnes(nb.Mask) ==> v4Octet(nb, j) == 0)
+//@ pure func sameV4Block(d net.IPNet, nb net.IPNet) bool = len(d.IP) == 16 && maskBits(d.Mask) == 32 && maskOnes(d.Mask) == maskOnes(nb.Mask) && (forallIdx j int :: 0 <= j && j < 4 ==> d.IP[12 + j] == v4Octet(nb, j))
+//@ go:
+//@ func lemmaNetblockRoundTrip(nb net.IPNet) bool {
+//@ 	enc, err := encodeIpAddressChoice(nb)
+//@ 	if err != nil {
+//@ 		return true
+//@ 	}
+//@ 	dec, err2 := decodeIPV4AddressChoice(enc)
+//@ 	return err2 == nil && sameV4Block(dec, nb)
+//@ }
+//@ end
+//@ func lemmaNetblockRoundTrip
+//@   intmode math
+//@   requires canonicalV4Block(nb)
+//@   ensures ret0                                         #C11.round-trip @C11
+//@   cover maskBits(nb.Mask) == 32 && maskOnes(nb.Mask) == 20   #C11.cover-round-trip @C11
 
 // ---- C03: validity window of SSH certificates -------------------------------------------------------
 //@ func GenSSHCertFileString
